@@ -63,3 +63,17 @@ Print Assumptions C06_validate_iff_rules.
 Theorem C06_regenerated_rules_are_the_documented_ones : rules_match_documentation = true.
 Proof. vm_compute. reflexivity. Qed.
 Print Assumptions C06_regenerated_rules_are_the_documented_ones.
+
+(* milestone labels: a string matches one of the regenerated label patterns iff it is <name>-<int>.<int> for a name of the
+   regenerated LABEL_NAMES table (the patterns are checked to be built from that table); header versions: <digits>.<digits> *)
+From PM Require Import Base.Regex Proofs.LangProofs2 Gen.Regexes Gen.Tables.
+Theorem C06_label_language :
+  forall s, existsb (fun r => re_matches r s) re_labels = true <->
+  exists name body, In name LABEL_NAMES /\ (s = body \/ s = body ++ [c_nl]) /\ DocLabel name body.
+Proof. exact label_lang. Qed.
+Print Assumptions C06_label_language.
+
+Theorem C06_header_version_language :
+  forall s, re_matches re_header_version s = true <-> exists body, (s = body \/ s = body ++ [c_nl]) /\ DocHeaderVersion body.
+Proof. exact header_version_lang. Qed.
+Print Assumptions C06_header_version_language.
